@@ -114,6 +114,43 @@ func init() {
 	}
 }
 
+// the message the loader is expected to give for each clause (a substring)
+var clauseMessage = map[string][]string{
+	"duplicate-type-name":                       {"Cannot redeclare type"},
+	"duplicate-directive-name":                  {"Cannot redeclare directive"},
+	"duplicate-field-name":                      {"can only be defined once"},
+	"undefined-type:field":                      {"Undefined type"},
+	"undefined-type:argument":                   {"Undefined type"},
+	"undefined-type:input-field":                {"Undefined type"},
+	"undefined-type:union-member":               {"Undefined type"},
+	"undefined-type:interface":                  {"Undefined type"},
+	"undefined-type:root":                       {"that does not exist"},
+	"wrong-kind:union-member-not-object":        {"must be OBJECT"},
+	"wrong-kind:implements-non-interface":       {"is a non interface type"},
+	"wrong-kind:input-type-in-output-position":  {"field must be one of SCALAR, OBJECT"},
+	"wrong-kind:output-type-in-input-position":  {"field must be one of SCALAR, ENUM, INPUT_OBJECT", "is not a valid input type"},
+	"wrong-kind:directive-argument-output-type": {"is not a valid input type"},
+	"interface-field-missing":                   {"it must have a field called"},
+	"interface-field-not-covariant":             {"must have type"},
+	"interface-argument-missing":                {"but it is missing"},
+	"interface-argument-type-differs":           {"has the wrong type"},
+	"interface-additional-required-argument":    {"must be optional or have a default value"},
+	"transitive-interface-not-implemented":      {"because it is implemented by"},
+	"empty-object":                              {"must define one or more fields"},
+	"empty-interface":                           {"must define one or more fields"},
+	"empty-input":                               {"must define one or more input fields"},
+	"empty-enum":                                {"must define one or more unique enum values"},
+	"reserved-name:type":                        {"must not begin with"},
+	"reserved-name:field":                       {"must not begin with"},
+	"reserved-name:argument":                    {"must not begin with"},
+	"reserved-name:input-field":                 {"must not begin with"},
+	"reserved-name:enum-value":                  {"must not begin with"},
+	"reserved-name:directive":                   {"must not begin with"},
+	"directive-undeclared-location":             {"is not applicable on"},
+	"directive-missing-required-argument":       {"cannot be null"},
+	"directive-undefined":                       {"Undefined directive"},
+}
+
 func xgenSchemas(c *Ctx, r *rng.R, n int, verbose bool) {
 	t0 := time.Now()
 	schemas := make([]*gen.Schema, n)
@@ -171,10 +208,14 @@ func xgenSchemas(c *Ctx, r *rng.R, n int, verbose bool) {
 	feats.print("schema features (fraction of schemas)", n, false)
 
 	// fault injection
-	perClause := map[string][3]int{} // total, rejected, rejected with plausible message
+	perClause := map[string][3]int{} // total, rejected, rejected with the message of the clause
+	otherMsg := newTally()
 	var freqs []string
 	var faults []gen.SchemaFault
 	for i, s := range schemas {
+		if out[i] != "OK" {
+			continue // faults are injected into schemas the library loads (else the base failure masks them)
+		}
 		for k := 0; k < 3; k++ {
 			f := gen.InjectSchemaFault(r.Fork(uint64(i*7+k)), s)
 			faults = append(faults, f)
@@ -198,7 +239,17 @@ func xgenSchemas(c *Ctx, r *rng.R, n int, verbose bool) {
 			if msgs[key] == nil {
 				msgs[key] = newTally()
 			}
-			msgs[key].add(classify(unhexMsg(strings.TrimPrefix(o, "E:"))), "")
+			m := unhexMsg(strings.TrimPrefix(o, "E:"))
+			msgs[key].add(classify(m), "")
+			hit := false
+			for _, want := range clauseMessage[key] {
+				hit = hit || strings.Contains(m, want)
+			}
+			if hit {
+				st[2]++
+			} else {
+				otherMsg.add(key+" / "+f.Variant+": "+classify(m), m+"\n"+strings.Join(f.Sources, "\n---\n"))
+			}
 		} else {
 			accepted.add(f.Clause+" / "+f.Variant, strings.Join(f.Sources, "\n---\n"))
 		}
@@ -220,11 +271,16 @@ func xgenSchemas(c *Ctx, r *rng.R, n int, verbose bool) {
 				top += fmt.Sprintf(" +%d other message classes", len(m.n)-1)
 			}
 		}
-		rate := 0.0
+		rate, rate2 := 0.0, 0.0
 		if st[0] > 0 {
 			rate = 100 * float64(st[1]) / float64(st[0])
+			rate2 = 100 * float64(st[2]) / float64(st[0])
 		}
-		fmt.Printf("  %-46s injected %6d rejected %6.2f%%  %s\n", cl, st[0], rate, top)
+		if len(top) > 70 {
+			top = top[:70]
+		}
+		fmt.Printf("  %-46s injected %6d rejected %6.2f%% with-the-clause's-message %6.2f%%  %s\n", cl, st[0], rate, rate2, top)
 	}
+	otherMsg.print("injected schema faults rejected with ANOTHER message (clause / variant: message)", 0, verbose)
 	accepted.print("injected schema faults that LOAD (clause / variant)", 0, true)
 }
